@@ -25,6 +25,7 @@ GNext ==
 
 GSpec == GInit /\ [][GNext]_gvars
 
-Program == [k |-> k, fnerr |-> fnerr, ranges |-> RangesOf(k), steps |-> hist]
+Program == [k |-> k, fnerr |-> fnerr, ranges |-> RangesOf(k), stepbytes |-> StepBytes,
+            partsize |-> PartSize, nparts |-> NParts, steps |-> hist]
 Emit == IF Len(hist) = Depth \/ ~ENABLED GNext THEN PrintT(ToJson(Program)) ELSE TRUE
 =============================================================================
